@@ -681,10 +681,16 @@ class SymMat:
     def astype(self, *a, **k):
         return self.copy()
 
+    # scipy: a conversion to the format the matrix already has returns the matrix itself unless copy=True (aliasing matters for the
+    # frame clauses: an in-place update of the "converted" matrix then reaches the operand)
     def tocsr(self, copy=False):
+        if self.fmt == "csr" and not copy:
+            return self
         return self._keep(SymMat(self.nr, self.nc, self._entry, "csr", self.diag, self.zero))
 
     def tocsc(self, copy=False):
+        if self.fmt == "csc" and not copy:
+            return self
         return self._keep(SymMat(self.nr, self.nc, self._entry, "csc", self.diag, self.zero))
 
     def getformat(self):
